@@ -40,7 +40,6 @@ type rmKey string
 // module and directly, the very same value.
 var rmKeys = []any{"a", "a", "b", rmKey("a"), "", 7}
 
-
 func (n *mnode) String() string {
 	switch n.Leaf {
 	case "add":
